@@ -30,6 +30,7 @@ type lockState struct {
 	held    bool
 	owner   *Goroutine
 	readers int
+	wwait   int         // Lock calls currently waiting (RWMutex writer preference)
 	vc      map[int]int // released by Unlock: acquired by Lock and RLock
 	rvc     map[int]int // released by RUnlock: acquired by Lock only (readers are not ordered among themselves)
 }
@@ -516,11 +517,16 @@ func (ex *Exec) mutexLock(fr *frame, p *Value, write bool) {
 	ex.yieldPoint("lock")
 	l := ex.lockOf(p)
 	if write {
+		// Go's RWMutex prefers writers: a Lock call that has to wait keeps new readers
+		// out until it got the lock (so a goroutine that read-locks twice deadlocks with
+		// a writer arriving in between)
+		l.wwait++
 		ex.block(func() bool { return !l.held && l.readers == 0 }, "Lock at "+fr.posStr())
+		l.wwait--
 		l.held = true
 		l.owner = ex.cur
 	} else {
-		ex.block(func() bool { return !l.held }, "RLock at "+fr.posStr())
+		ex.block(func() bool { return !l.held && l.wwait == 0 }, "RLock at "+fr.posStr())
 		l.readers++
 	}
 	ex.syncAcquire(&l.vc)
